@@ -960,10 +960,12 @@ class MixedEdgeGraph:
         """
         if edge_type == "all":
             edge_types = self.edge_types
+        else:
+            edge_types = [edge_type]
 
         s = 0
         for _edge_type in edge_types:
-            s = sum(d for v, d in self.degree(weight=weight)[_edge_type])
+            s += sum(d for v, d in self.degree(weight=weight)[_edge_type])
         # If `weight` is None, the sum of the degrees is guaranteed to be
         # even, so we can perform integer division and hence return an
         # integer. Otherwise, the sum of the weighted degrees is not
